@@ -25,6 +25,94 @@ def expected_tree(items):
     return structs, enums, impls, services, devices
 
 
+def ty_dict(t):
+    k = t[0]
+    if k == "u":
+        return {"name": f"u{t[1]}", "type": "unsigned"}
+    if k == "i":
+        return {"name": f"i{t[1]}", "type": "signed"}
+    if k == "f32":
+        return {"name": "f32", "type": "float"}
+    if k == "f64":
+        return {"name": "f64", "type": "double"}
+    if k == "str":
+        return {"type": "str"}
+    if k == "enum":
+        return {"name": t[1], "type": "Enum"}
+    if k == "struct":
+        return {"name": t[1], "type": "Struct"}
+    if k == "arr":
+        return {"underlying_type": ty_dict(t[1]), "size": t[2], "type": "Array"}
+    if k == "dyn":
+        return {"underlying_type": ty_dict(t[1]), "type": "DynamicArray"}
+    if k == "opt":
+        return {"underlying_type": ty_dict(t[1]), "type": "Optional"}
+    raise ValueError(t)
+
+
+def val_py(v):
+    if isinstance(v, int):
+        return v
+    if v[0] == "float":
+        return float(v[1])
+    if v[0] in ("str", "ident"):
+        return v[1]
+    return [val_py(x) for x in v[1]]
+
+
+def expected_dict(items):
+    """FcpV2.to_dict() of the tree the description denotes, written from the description alone (search side; independent of the
+    Coq model): everything the property lists, in source order, plus one default binding per struct."""
+    d = {"structs": [], "enums": [], "impls": [], "services": [], "devices": [], "version": "3.0"}
+    for it in items:
+        if it[0] == "struct":
+            fields = []
+            for f in it[2]:
+                fd = {"name": f["name"], "field_id": f["id"], "type": ty_dict(f["type"])}
+                for pn, pargs in f.get("params", []):
+                    if pn == "unit":
+                        fd["unit"] = val_py(pargs[0])
+                    elif pn == "range":
+                        fd["min_value"], fd["max_value"] = val_py(pargs[0]), val_py(pargs[1])
+                fields.append(fd)
+            d["structs"].append({"name": it[1], "fields": fields})
+            d["impls"].append({"name": it[1], "protocol": "default", "type": it[1], "fields": {}, "signals": []})
+        elif it[0] == "enum":
+            d["enums"].append({"name": it[1], "enumeration": [{"name": n, "value": v} for n, v in it[2]]})
+        elif it[0] == "impl":
+            _, proto, ty, name, _as, body = it
+            d["impls"].append({"name": name if name is not None else ty, "protocol": proto, "type": ty,
+                               "fields": {b[1]: val_py(b[2]) for b in body if b[0] == "ext"},
+                               "signals": [{"name": b[1], "fields": {k: val_py(v) for k, v in b[2]}} for b in body if b[0] == "sig"]})
+        elif it[0] == "service":
+            d["services"].append({"name": it[1], "id": it[2], "methods": [{"name": m[0], "id": m[2], "input": m[1], "output": m[3]} for m in it[3]]})
+        elif it[0] == "device":
+            d["devices"].append({"name": it[1], "fields": {k: val_py(v) for k, v in it[2]}})
+    return d
+
+
+def first_difference(a, b, path="tree"):
+    if type(a) is not type(b):
+        return f"{path}: {a!r} vs {b!r}"
+    if isinstance(a, dict):
+        for k in sorted(set(a) | set(b)):
+            if k not in a or k not in b:
+                return f"{path}.{k}: present on one side only ({a.get(k)!r} vs {b.get(k)!r})"
+            r = first_difference(a[k], b[k], f"{path}.{k}")
+            if r:
+                return r
+        return None
+    if isinstance(a, list):
+        if len(a) != len(b):
+            return f"{path}: {len(a)} vs {len(b)} entries"
+        for i, (x, y) in enumerate(zip(a, b)):
+            r = first_difference(x, y, f"{path}[{i}]")
+            if r:
+                return r
+        return None
+    return None if a == b else f"{path}: {a!r} vs {b!r}"
+
+
 def tree_summary(fcp):
     return ([(s.name, [(f.name, f.field_id) for f in s.fields]) for s in fcp.structs],
             [(e.name, [(x.name, x.value) for x in e.enumeration]) for e in fcp.enums],
@@ -63,6 +151,7 @@ def run(chk):
         for _ in range(nfmt):
             texts.append(printer.render(printer.tokens(items, chk.rng), chk.rng))
         want = expected_tree(items)
+        want_dict = expected_dict(items)
         trees = []
         for text in texts:
             out = front_run.run_front({"main.fcp": text})
@@ -74,7 +163,11 @@ def run(chk):
                 continue
             if tree_summary(out[1]) != want:
                 fails.append({"kind": "tree-is-not-the-image-of-the-source", "source": text, "want": want, "got": tree_summary(out[1])})
-            trees.append(out[1].to_dict())
+            got = out[1].to_dict()
+            trees.append(got)
+            diff = first_difference(want_dict, got)
+            if diff and tree_summary(out[1]) == want:
+                fails.append({"kind": "parsing-is-not-the-inverse-of-printing", "source": text, "first_difference (description vs parsed)": diff})
         if len(trees) > 1 and any(t != trees[0] for t in trees[1:]):
             fails.append({"kind": "result-depends-on-formatting-or-optional-separators", "sources": texts})
     chk.log(f"{len(cases)} sources; implementation-side failures: {len(fails)}")
